@@ -18,6 +18,9 @@ LEVEL = "proof"
 # an error may carry its chain: ('e', raised, full message, (id, base message, (prefix, ...))) - the Go error is the base error
 # `id` (one object per id and message within a case, as a sentinel) wrapped once per prefix with "%s: %w"; the model and the laws
 # know the message and the raised flag only
+# ('o', kind, id, variant): a value of a kind without a literal spelling (time, builtin, function, module, list / int iterator,
+# buffer, channel, float_slice, partial); the same (kind, id, variant) is the same object within a case, another id with the same
+# variant another object with the same content.  Outside the model: judged by the laws alone
 
 INF_MAG = 0x7FF0000000000000
 SIGN = 1 << 63
@@ -45,6 +48,8 @@ def text(v):
         if len(v) > 3:
             return "E%d=%s" % (1 if v[1] else 0, "/".join([str(v[3][0]), v[3][1].hex()] + [x.hex() for x in v[3][2]]))
         return "e%d=%s" % (1 if v[1] else 0, v[2].hex())
+    if k == "o":
+        return "O=%s/%d/%d" % (v[1], v[2], v[3])
     if k == "L":
         return " ".join(["L%d" % len(v[1])] + [text(x) for x in v[1]])
     if k == "S":
@@ -94,6 +99,10 @@ def has_nan(v):
     return anywhere(v, is_nan)
 
 
+def has_time(v):
+    return anywhere(v, lambda x: x[0] == "o" and x[1] == "time")
+
+
 def has_kind(v, k):
     return anywhere(v, lambda x: x[0] == k)
 
@@ -113,6 +122,8 @@ TAGNAME = {"n": "nil", "t": "bool", "f": "bool", "i": "int", "d": "float", "y": 
 
 
 def tag(v):
+    if v[0] == "o":
+        return "o:" + v[1]
     return TAGNAME[v[0]]
 
 
@@ -193,6 +204,26 @@ BASES = [b"a", b"b", b"", b"a: b", b"a: a", b"boom"]
 PREFIXES = [b"a", b"a", b"", b"outer"]
 
 
+OPAQUE = ["time", "time", "builtin", "function", "module", "listiter", "intiter", "buffer", "chan", "floatslice", "partial"]
+
+
+def gen_opaque(r, kind=None):
+    kind = kind or r.choice(OPAQUE)
+    return ("o", kind, r.below(2), r.below(4 if kind == "time" else 3))
+
+
+def cousin_opaque(r, v):
+    """the same object, another object with the same content, the same kind with another content, another kind"""
+    c = r.below(8)
+    if c < 2:
+        return v
+    if c < 4:
+        return ("o", v[1], 1 - v[2], v[3])
+    if c < 7:
+        return gen_opaque(r, v[1])
+    return gen_opaque(r)
+
+
 def gen_error(r):
     """an error value: plain, or with a chain of wrapped errors (up to three layers over one of three base errors)"""
     if r.chance(1, 2):
@@ -268,7 +299,9 @@ def gen_float(r, nan_ok=False):
 
 
 def gen_scalar(r, nan_ok=False):
-    c = r.below(16)
+    c = r.below(17)
+    if c == 16:
+        return gen_opaque(r)
     if c == 0:
         return ("n",)
     if c == 1:
@@ -333,6 +366,8 @@ def dedup_set(items):
 def cousin(r, v):
     """a value related to v: equal under ==, or nearly so (other numeric type, string<->byte_slice, +-0, neighbour)"""
     k = v[0]
+    if k == "o":
+        return cousin_opaque(r, v)
     if k == "e":
         return cousin_error(r, v)
     if k == "i":
@@ -441,7 +476,7 @@ def cousin(r, v):
     return v
 
 
-HOMO = ["int", "float", "byte", "string", "bool", "lint", "lstr", "smallnum", "mixnum", "err", "bytes"]
+HOMO = ["int", "float", "byte", "string", "bool", "lint", "lstr", "smallnum", "mixnum", "err", "bytes", "opaque", "otime"]
 
 
 def gen_homo(r, kind):
@@ -467,6 +502,10 @@ def gen_homo(r, kind):
         return r.choice([gen_int(r), gen_float(r), ("y", r.choice(BYTES))])
     if kind == "err":
         return gen_error(r)
+    if kind == "opaque":
+        return gen_opaque(r, r.choice(OPAQUE[2:]))
+    if kind == "otime":
+        return gen_opaque(r, "time")
     if kind == "bytes":
         return ("b", r.choice(STRS))
     raise ValueError(kind)
@@ -520,6 +559,7 @@ class Findings:
 
 K_MIX = "int-float-rounding-not-transitive"
 K_SETX = "set-membership-cross-type"
+K_TIME = "time-compare-same-instant-both-less"
 
 
 def oracle_pair(a, b, o, route, F, stats):
@@ -554,6 +594,9 @@ def oracle_pair(a, b, o, route, F, stats):
             le_ab, le_ba = o["ops"][1], o["ops"][5]
             if le_ab != "1" and le_ba != "1":
                 F.add("total preorder: totality", case, "neither a <= b nor b <= a")
+    if o["ops"][0] == "1" and o["ops"][4] == "1" and not (numeric(a) and numeric(b)) and t is None:
+        # outside the types the property lists: still, no order reports a < b together with b < a
+        F.add("strict order is asymmetric", case, "a < b and b < a", K_TIME if (has_time(a) and has_time(b)) else None)
     if numeric(a) and numeric(b):
         stats["numeric_pairs"] += 1
         if o["ops"][0] == "1" and o["ops"][4] == "1":
@@ -654,6 +697,8 @@ def oracle_sorted(l, line, route, F, stats):
     stats["sort_comparable"] += 1
     mixed = anywhere(l, big_int) and has_kind(l, "d")
     known = K_MIX if mixed else None
+    if has_time(l) and known is None:
+        known = K_TIME      # times of one instant in different locations are each < the other: no order to sort by
     if f[0] != "ROK":
         if n >= 2:
             F.add("sorted: mutually comparable input is sorted", case, "sorted() answered %s" % f[0])
@@ -764,7 +809,7 @@ def gen_plain(r, depth=1):
     """a value without errors and NaN (errors as script globals are a subject of their own)"""
     while True:
         v = gen_value(r, depth) if r.chance(1, 4) else gen_scalar(r)
-        if not has_kind(v, "e") and not has_nan(v):
+        if not has_kind(v, "e") and not has_kind(v, "o") and not has_nan(v):
             return v
 
 
@@ -1176,6 +1221,9 @@ def parse_text(toks, pos=0):
         return ("b", bytes.fromhex(t[2:])), pos + 1
     if t.startswith("e0=") or t.startswith("e1="):
         return ("e", t[1] == "1", bytes.fromhex(t[3:])), pos + 1
+    if t.startswith("O="):
+        parts = t[2:].split("/")
+        return ("o", parts[0], int(parts[1]), int(parts[2])), pos + 1
     if t.startswith("E0=") or t.startswith("E1="):
         parts = t[3:].split("/")
         return chain_err(t[1] == "1", int(parts[0]), bytes.fromhex(parts[1]), [bytes.fromhex(x) for x in parts[2:]]), pos + 1
@@ -1258,7 +1306,8 @@ def run_sharded(exe, lines, work, name, shards):
 
 def load_known_ids():
     ids = {}
-    for fn in ("known_findings.jsonl",):
+    import glob
+    for fn in ["known_findings.jsonl"] + sorted(os.path.basename(x) for x in glob.glob(os.path.join(C.VERIF, "known_findings.*.jsonl"))):
         p = os.path.join(C.VERIF, fn)
         if not os.path.exists(p):
             continue
@@ -1319,7 +1368,7 @@ def _body(res, tier, obs, model, work, proved):
     shards = C.NCPU
     with ThreadPoolExecutor(max_workers=2) as ex:
         fg = ex.submit(run_sharded, obs, lines, work, "go", shards)
-        fm = ex.submit(run_sharded, model, [model_text(l) for l in lines], work, "mo", shards)
+        fm = ex.submit(run_sharded, model, ["Y n" if "O=" in l else model_text(l) for l in lines], work, "mo", shards)
         (go, e1), (mo, e2) = fg.result(), fm.result()
     if go is None or mo is None:
         res.violation({"property": PROP, "kind": "harness-run-failed", "stage": "c15obs / model_ops", "log": e1 + " " + e2},
@@ -1331,6 +1380,8 @@ def _body(res, tier, obs, model, work, proved):
     ndiff = 0
     badcase = 0
     for i, (g, m) in enumerate(zip(go, mo)):
+        if "O=" in lines[i]:
+            continue        # values outside the model (no literal spelling): judged by the laws alone
         if g.startswith("BADCASE") or m.startswith("BADCASE"):
             badcase += 1
         if g != m:
